@@ -108,6 +108,8 @@ def run(chk):
                 conc.tsan_run(chk)
             except Exception as e:      # supporting evidence only
                 chk.notes.append("real-thread run under -fsanitize=thread not performed: %r" % (e,))
+    from areas import mem_tie
+    mem_tie.tie_run(chk)
     return chk.finish(assumptions=[
         "C11 DRF-SC: the theorems are about sequentially consistent interleavings of the atomic steps; "
         "all atomics in memory.c are seq_cst and the model is proved race-free, so real executions are SC (trusted)",
